@@ -2,9 +2,10 @@
 Hand-written executable model of SPSDK's debug authentication objects
 (`spsdk/dat/debug_credential.py`, `dac_packet.py`, `dar_packet.py`), tied to /repo by the C15
 correspondence sweep (harness/props/C15.py) and parameterised by `Generated/DatConsts.lean`
-(field layouts = `get_data_format()` zipped with the `pack(...)` arguments, size dictionaries,
-`RotMetaFlags` bit functions, DAC hash-length function, device database rows — all regenerated
-from the current source on every run).
+(field layouts of export / data-to-sign / parse, size tables, `RotMetaFlags` / RoT-hash / DAC-hash-length /
+creation accept-refuse tables — obtained on every run by executing the current classes in a sandbox with stub
+objects, i.e. by VALUE, not by spelling — and the device database rows).  Small arithmetic pieces (`flagsBytes`,
+`flagsParse`, `dacRotHashLen`, `createCheck`) are hand-written here and pinned to those tables by theorems.
 
 Modelling decisions (each one is listed as an assumption by the harness):
   * Public keys are the byte strings `export_dck_pub()` / `export_rot_pub()` produce; `PublicKey.parse`
